@@ -53,6 +53,19 @@ Proof.
   cbn [app]. rewrite last_cons'. rewrite IH by auto. destruct v as [|y v]; [contradiction|]. now rewrite !last_cons'.
 Qed.
 
+
+Lemma nth_error_firstn_lt {A} : forall k (l : list A) i, i < k -> nth_error (firstn k l) i = nth_error l i.
+Proof.
+  induction k as [|k IH]; intros l i H; [lia|].
+  destruct l as [|x l]; [now destruct i|]. destruct i as [|i]; cbn [firstn nth_error]; [reflexivity|]. apply IH. lia.
+Qed.
+
+Lemma nth_firstn_lt {A} : forall k (l : list A) i d, i < k -> nth i (firstn k l) d = nth i l d.
+Proof.
+  induction k as [|k IH]; intros l i d H; [lia|].
+  destruct l as [|x l]; [now destruct i|]. destruct i as [|i]; cbn [firstn nth]; [reflexivity|]. apply IH. lia.
+Qed.
+
 (* ------------------------------------------------------------------ boundaries *)
 Lemma is_boundary_le : forall t i, is_boundary t i = true -> i <= length t.
 Proof.
@@ -114,6 +127,17 @@ Proof.
   induction n as [|n IH]; intros x d; [reflexivity|].
   cbn [repeat]. rewrite last_cons'. rewrite IH. destruct n; reflexivity.
 Qed.
+
+
+Lemma sf_skipn : forall n l lo, SortedFrom lo l -> n < length l -> SortedFrom (nth n l 0) (skipn n l).
+Proof.
+  induction n as [|n IH]; intros [|x l] lo H Hn; cbn [length] in Hn; try lia.
+  - cbn [nth skipn SortedFrom] in *. destruct H. split; [lia|auto].
+  - cbn [nth skipn]. destruct H as [_ H]. apply (IH l x); [auto|lia].
+Qed.
+
+Lemma sf_hd_ge : forall l lo, SortedFrom lo l -> l <> [] -> lo <= nth 0 l 0.
+Proof. intros [|x l] lo H Hne; [contradiction|]. now destruct H. Qed.
 
 Lemma sf_nth_mono : forall l lo i j, SortedFrom lo l -> i <= j -> j < length l -> nth i l 0 <= nth j l 0.
 Proof.
@@ -479,6 +503,161 @@ Qed.
 
 Theorem inv_all_batches : forall o s, wf_text o = true -> Reach o s -> InvPos o s.
 Proof. intros. apply inv_pos. now apply reach_inv. Qed.
+
+(* ------------------------------------------------------------------ bytes that a batch does not replace *)
+Lemma resolve_kept : forall o src smap edits start cl t m l,
+  length smap = length src + 1 ->
+  start <= length src -> is_boundary src start = true ->
+  edits_ok_from src start edits = true ->
+  BMap o (skipn start src) (skipn start smap) ->
+  SortedFrom 0 smap ->
+  resolve cfg src smap edits start cl = ROk t m l ->
+  forall q, start <= q -> q < length src -> kept edits q = true ->
+    nth_error t (newpos_from edits start q) = nth_error src q /\
+    nth (newpos_from edits start q) m 0 = nth q smap 0 /\
+    nth (S q) smap 0 <= nth (S (newpos_from edits start q)) m 0.
+Proof.
+  intros o src smap edits. induction edits as [|e rest IH]; intros start cl t m l Hlen Hst Hbst Hok HB HS Hres q Hq1 Hq2 Hk.
+  - cbn [resolve] in Hres. unfold str_slice, vec_slice in Hres.
+    rewrite Hbst, is_boundary_len in Hres.
+    assert (E1 : (start <=? length src) = true) by (apply Nat.leb_le; lia).
+    assert (E2 : (start <=? length smap) = true) by (apply Nat.leb_le; lia).
+    rewrite E1, E2, !Nat.leb_refl in Hres. cbn [andb] in Hres.
+    rewrite !firstn_all_ge in Hres by (rewrite skipn_length'; lia).
+    inversion Hres; subst. cbn [newpos_from].
+    rewrite nth_error_skipn', !nth_skipn'. replace (start + (q - start)) with q by lia.
+    replace (start + S (q - start)) with (S q) by lia. repeat split; auto.
+  - cbn [edits_ok_from] in Hok. repeat rewrite andb_true_iff in Hok.
+    destruct Hok as [[[[[[Hs1 Hs2] Hs3] Hbs] Hbe] Hw] Hrest].
+    apply Nat.leb_le in Hs1, Hs2, Hs3.
+    cbn [kept forallb] in Hk. apply andb_true_iff in Hk. destruct Hk as [Hk1 Hk2]. fold (kept rest q) in Hk2.
+    set (s := e_s e) in *. set (en := e_e e) in *. set (w := e_w e) in *.
+    cbn [resolve newpos_from]. cbn [resolve] in Hres. fold s en w. fold s en w in Hres.
+    unfold str_slice, vec_slice in Hres. rewrite Hbst, Hbs in Hres.
+    assert (E1 : (start <=? s) = true) by (apply Nat.leb_le; lia).
+    assert (E2 : (s <=? length src) = true) by (apply Nat.leb_le; lia).
+    assert (E3 : (s <=? length smap) = true) by (apply Nat.leb_le; lia).
+    rewrite E1, E2, E3 in Hres. cbn [andb] in Hres.
+    destruct (add_replace cfg smap s en w) as [[[rb rm] delta]|] eqn:Ear; [|discriminate].
+    destruct (cmp_eval (c_resolve_cmp cfg) (cl + delta) (Z.of_N (c_resolve_limit cfg))); [discriminate|].
+    destruct (resolve cfg src smap rest en (cl + delta)) as [t' m' l'| |] eqn:Erec; try discriminate.
+    inversion Hres; subst t m l; clear Hres.
+    set (k := s - start) in *.
+    destruct (BMap_split o k _ _ HB) as [_ HB1]; [rewrite skipn_length'; lia|].
+    rewrite !skipn_skipn' in HB1. replace (start + k) with s in HB1 by lia.
+    destruct (BMap_split o (en - s) _ _ HB1) as [_ HB2]; [rewrite skipn_length'; lia|].
+    rewrite !skipn_skipn' in HB2. replace (s + (en - s)) with en in HB2 by lia.
+    set (xs := nth s smap 0). set (xe := nth en smap 0).
+    assert (Hxsxe : xs <= xe) by (apply (sf_nth_mono _ 0); auto; lia).
+    assert (HSE : SortedFrom xe (skipn en smap)) by (apply (sf_skipn _ _ 0); auto; lia).
+    destruct (resolve_ok o src smap xe rest en (cl + delta)%Z t' m' l' Hlen Hs3 Hbe Hrest HB2 HSE Erec) as (HBt & HSt & _ & _).
+    assert (Hm'ne : m' <> []). { intros C. apply BMap_length in HBt. subst m'. cbn in HBt. lia. }
+    destruct (add_replace_spec _ _ _ _ _ _ _ Ear) as (-> & Hnil & Hcons).
+    assert (Hla : length (firstn k (skipn start src)) = k) by (rewrite firstn_length, skipn_length'; lia).
+    assert (Hlb : length (firstn k (skipn start smap)) = k) by (rewrite firstn_length, skipn_length'; lia).
+    assert (Hlrm : length rm = length w).
+    { destruct w as [|b0 w0] eqn:Ew; [now rewrite (Hnil eq_refl)|].
+      destruct Hcons as (xs' & xe' & _ & _ & ->); [discriminate|]. cbn [length]. rewrite repeat_length. lia. }
+    assert (Hhd : xs <= nth 0 (rm ++ m') 0).
+    { destruct w as [|b0 w0] eqn:Ew.
+      - rewrite (Hnil eq_refl). cbn [app]. pose proof (sf_hd_ge _ _ HSt Hm'ne). lia.
+      - destruct Hcons as (xs' & xe' & Hn1 & _ & ->); [discriminate|]. cbn [app nth].
+        apply (nth_error_nth _ _ 0) in Hn1. fold xs in Hn1. lia. }
+    destruct (Nat.ltb_spec q s) as [Hlt|Hge].
+    + (* in the copied stretch *)
+      assert (q - start < k) by lia.
+      rewrite nth_error_app1 by lia. rewrite app_nth1 by lia.
+      rewrite nth_error_firstn_lt, nth_firstn_lt by lia.
+      rewrite nth_error_skipn', nth_skipn'. replace (start + (q - start)) with q by lia.
+      split; [reflexivity|]. split; [reflexivity|].
+      destruct (Nat.eq_dec (S q) s) as [Heq|Hne].
+      * rewrite app_nth2 by lia. replace (S (q - start) - length (firstn k (skipn start smap))) with 0 by lia.
+        rewrite Heq. fold xs. exact Hhd.
+      * rewrite app_nth1 by lia. rewrite nth_firstn_lt by lia. rewrite nth_skipn'.
+        replace (start + S (q - start)) with (S q) by lia. lia.
+    + (* behind the edit *)
+      cbn [orb] in Hk1. apply Nat.leb_le in Hk1.
+      destruct (IH en (cl + delta)%Z t' m' l' Hlen Hs3 Hbe Hrest HB2 HS Erec q Hk1 Hq2 Hk2) as (I1 & I2 & I3).
+      set (np := newpos_from rest en q) in *.
+      rewrite nth_error_app2 by lia. rewrite nth_error_app2 by lia.
+      rewrite app_nth2 by lia. rewrite app_nth2 by lia.
+      replace (k + length w + np - length (firstn k (skipn start src)) - length w) with np by lia.
+      replace (k + length w + np - length (firstn k (skipn start smap)) - length rm) with np by lia.
+      split; [exact I1|]. split; [exact I2|].
+      rewrite app_nth2 by lia. rewrite app_nth2 by lia.
+      replace (S (k + length w + np) - length (firstn k (skipn start smap)) - length rm) with (S np) by lia.
+      exact I3.
+Qed.
+
+Lemma newpos_succ : forall src es start q,
+  edits_ok_from src start es = true -> start <= q -> kept es q = true -> kept es (S q) = true ->
+  is_boundary src (S q) = false -> newpos_from es start (S q) = S (newpos_from es start q).
+Proof.
+  intros src es. induction es as [|e r IH]; intros start q Hok Hq Hk1 Hk2 Hnb; cbn [newpos_from]; [lia|].
+  cbn [edits_ok_from] in Hok. repeat rewrite andb_true_iff in Hok.
+  destruct Hok as [[[[[[Hs1 Hs2] Hs3] Hbs] Hbe] Hw] Hrest]. apply Nat.leb_le in Hs1, Hs2, Hs3.
+  cbn [kept forallb] in Hk1, Hk2. apply andb_true_iff in Hk1, Hk2. destruct Hk1 as [Hk1 Hk1']. destruct Hk2 as [Hk2 Hk2'].
+  destruct (Nat.ltb_spec q (e_s e)) as [Hlt|Hge]; destruct (Nat.ltb_spec (S q) (e_s e)) as [Hlt2|Hge2]; try lia.
+  - assert (S q = e_s e) by lia. congruence.
+  - cbn [orb] in Hk1. apply Nat.leb_le in Hk1. rewrite (IH (e_e e) q) by auto. lia.
+Qed.
+
+Lemma commit_kept : forall o s es s' q,
+  Inv o s -> edits_ok (cur s) es = true -> commit cfg s es = Ok s' -> q < length (cur s) -> kept es q = true ->
+  nth_error (cur s') (newpos es q) = nth_error (cur s) q /\
+  nth (newpos es q) (m2o s') 0 = (if Nat.eqb (newpos es q) 0 then 0 else nth q (m2o s) 0) /\
+  nth (S q) (m2o s) 0 <= nth (S (newpos es q)) (m2o s') 0.
+Proof.
+  intros o s es s' q (Ho & HB & HS & Hhd & Hlast & Hwf & Hwo) Hok Hc Hq Hk.
+  destruct cfg_fields as (_ & _ & Hff & _).
+  pose proof (BMap_length _ _ _ HB) as Hlen.
+  unfold commit in Hc. destruct es as [|e es].
+  - inversion Hc; subst s'. unfold newpos. cbn [newpos_from]. rewrite Nat.sub_0_r.
+    split; [reflexivity|]. split; [|lia].
+    destruct (Nat.eqb_spec q 0) as [->|]; [|reflexivity]. destruct (m2o s); [cbn in Hlen; lia | exact Hhd].
+  - destruct (resolve cfg (cur s) (m2o s) (e :: es) 0 (Z.of_nat (length (cur s)))) as [t m l| |] eqn:Er; try discriminate.
+    2:{ destruct (cmp_eval _ _ _); discriminate. }
+    destruct (cmp_eval _ _ _); [discriminate|]. inversion Hc; subst s'; clear Hc. cbn [cur m2o].
+    destruct (resolve_kept o (cur s) (m2o s) (e :: es) 0 (Z.of_nat (length (cur s))) t m l) with (q := q) as (K1 & K2 & K3);
+      [ assumption | lia | apply is_boundary_0; assumption | exact Hok | exact HB | exact HS | exact Er | lia | exact Hq | exact Hk | ].
+    fold (newpos (e :: es) q) in K1, K2, K3. set (p := newpos (e :: es) q) in *.
+    unfold force_first. rewrite Hff. destruct m as [|x m].
+    + split; [exact K1|]. destruct p; cbn [nth] in *; split; auto.
+    + split; [exact K1|]. split.
+      * destruct p as [|p]; cbn [nth Nat.eqb] in *; auto.
+      * cbn [nth] in *. exact K3.
+Qed.
+
+(* a byte of the original followed through batches that do not replace it:
+   Tracks o s q p ex = byte q of o sits at offset p of cur s; ex = it never became the first byte of the text *)
+Inductive Tracks (o : list N) : buf -> nat -> nat -> bool -> Prop :=
+| T_start s q : start_build cfg o = Ok s -> q < length o -> Tracks o s q q true
+| T_commit s es s' q p ex : Tracks o s q p ex -> edits_ok (cur s) es = true -> commit cfg s es = Ok s' -> cur s' <> [] ->
+    kept es p = true -> Tracks o s' q (newpos es p) (ex && negb (Nat.eqb (newpos es p) 0)).
+
+Theorem unreplaced_maps_to_self : forall o s q p ex, wf_text o = true -> Tracks o s q p ex ->
+  Reach o s /\
+  nth_error (cur s) p = nth_error o q /\ q < length o /\
+  nth p (m2o s) 0 <= q /\ S q <= nth (S p) (m2o s) 0 /\
+  (ex = true \/ q = 0 -> nth p (m2o s) 0 = q).
+Proof.
+  intros o s q p ex Hwf H. induction H as [s q Hs Hq | s es s' q p ex H IH Hok Hc Hne Hk].
+  - split; [now apply R_start|]. pose proof Hs as Hs'.
+    destruct cfg_fields as (Hf & He & _). unfold start_build in Hs. rewrite Hf, He in Hs.
+    destruct (cmp_eval _ _ _); [discriminate|]. inversion Hs; subst; clear Hs. cbn [cur m2o].
+    replace (length o + 1 - 0) with (length o + 1) by lia.
+    rewrite !seq_nth by lia. repeat split; auto; lia.
+  - destruct IH as (HR & I1 & I2 & I3 & I4 & I5).
+    pose proof (reach_inv _ _ Hwf HR) as HI.
+    assert (Hp : p < length (cur s)). { apply nth_error_Some. rewrite I1. apply nth_error_Some. exact I2. }
+    destruct (commit_kept _ _ _ _ _ HI Hok Hc Hp Hk) as (K1 & K2 & K3).
+    split; [eapply R_commit; eauto|]. split; [congruence|]. split; [exact I2|].
+    split; [rewrite K2; destruct (Nat.eqb (newpos es p) 0); lia|]. split; [lia|].
+    intros [Hex|Hq0].
+    + apply andb_true_iff in Hex. destruct Hex as [Hex Hnz]. rewrite K2.
+      destruct (Nat.eqb (newpos es p) 0); [discriminate|]. apply I5. now left.
+    + rewrite K2. destruct (Nat.eqb (newpos es p) 0); [lia|]. apply I5. now right.
+Qed.
 
 (* ------------------------------------------------------------------ code-point offsets under the invariant *)
 Lemma orig_b2c_eq : forall t, orig_b2c cfg t = ob2c_scan t 0 ++ [Some (0 + count_leads t)].
